@@ -21,6 +21,7 @@
 package engine
 
 import (
+	"fmt"
 	"go/ast"
 	"go/token"
 	"reflect"
@@ -90,6 +91,12 @@ func (m SliceDotsMatcher) Match(got reflect.Value, d data.Data, r Region) (data.
 		if !ok {
 			return d, false
 		}
+	}
+
+	// Remember what kind of list each "..." stood for, so that the
+	// replacer can refuse to reproduce, say, statements as expressions.
+	for _, dots := range m.Dots {
+		d = data.WithValue(d, sliceDotsTypeKey(dots), got.Type())
 	}
 
 	return d, idx == len(gotItems)
@@ -219,6 +226,14 @@ func (r SliceDotsReplacer) Replace(d data.Data, cl Changelog, pos token.Pos) (re
 
 	var skipped []skippedSection
 	for _, dotPos := range r.Dots {
+		// A "..." may get associated with a "..." that stood for a
+		// list of another kind (statements vs. expressions, say). With
+		// a non-empty list the assignment below fails; an empty list
+		// would silently produce an invalid node.
+		var matched reflect.Type
+		if data.Lookup(d, sliceDotsTypeKey(r.dotAssoc[dotPos]), &matched) && matched != r.Type {
+			return reflect.Value{}, fmt.Errorf(`"..." stands for a list of type %v and cannot be used where %v is expected`, matched, r.Type)
+		}
 		items, region := lookupSliceDotsSkipped(d, r.dotAssoc[dotPos])
 		skipped = append(skipped, skippedSection{
 			Items:  items,
@@ -259,6 +274,10 @@ func (r SliceDotsReplacer) Replace(d data.Data, cl Changelog, pos token.Pos) (re
 }
 
 type sliceDotsKey token.Pos
+
+// sliceDotsTypeKey is the key under which the type of the list that a "..."
+// was matched against is recorded.
+type sliceDotsTypeKey token.Pos
 
 type sliceDotsData struct {
 	Skipped []reflect.Value
